@@ -38,6 +38,33 @@ class Child(HasTraits):
     cmy = PrototypedFrom("mid", prefix="my")
 
 
+class ChildSub(Child):
+    """Everything - the deferring traits and __prefix__ - is inherited."""
+
+
+class PrefixMixin(HasTraits):
+    __prefix__ = "q_"
+
+
+class ChildMixed(PrefixMixin):
+    """__prefix__ comes from a base class, the deferring traits are its own."""
+    parent = Instance(Target)
+    mid = Instance(Mid)
+    x = DelegatesTo("parent")
+    yy = DelegatesTo("parent", prefix="y")
+    a = DelegatesTo("parent", prefix="p_*")
+    b = DelegatesTo("parent", prefix="*")
+    y = PrototypedFrom("parent")
+    px = PrototypedFrom("parent", prefix="x")
+    pa = PrototypedFrom("parent", prefix="p_*")
+    pb = PrototypedFrom("parent", prefix="*")
+    cx = DelegatesTo("mid", prefix="x")
+    cmy = PrototypedFrom("mid", prefix="my")
+
+
+CHILD_CLASSES = {"Child": Child, "ChildSub": ChildSub, "ChildMixed": ChildMixed}
+
+
 class ProtoChild(HasTraits):
     """A child whose deferring attributes are all prototyped: when every one
     of them holds a local value the object has no forwarding listener left."""
